@@ -117,6 +117,14 @@ def gen_one(r, i, tier):
         ds = [copy.deepcopy(r.choice(recs)) for _ in range(r.randint(6, 12))]
         ops.append(("wrap", sd, ws, ds, rec))
         meta["wraps"].append(len(ops) - 1)
+        if sd["form"] == "str" and r.random() < 0.6:
+            # one string quantity fed with records of changing representation (dict, attribute object,
+            # bare scalar): only for expressions of the single field x
+            e0 = field0(e)
+            sd0 = dict(sd, e=e0)
+            one = records(r, "scalar", 3)
+            mixed = [[r.choice(["dict", "attr", "scalar"]), copy.deepcopy(r.choice(one))] for _ in range(r.randint(5, 9))]
+            ops.append(("wrap", sd0, [r.choice(["ser", "cached"])], mixed, "mixed"))
         # the same wrappers in another order / with duplicates removed
         ws2 = list(ws)
         r.shuffle(ws2)
@@ -164,6 +172,8 @@ def oracle(p, run, exact):
     for j, (o, ob) in enumerate(zip(p["ops"], obs)):
         if o[0] == "wrap":
             _, sd, ws, ds, rec = o
+            if rec == "mixed":
+                rec = "dict"
             ns = names_of(ws)
             dn = default_name(sd)
             # expected outcome from the property text
